@@ -55,9 +55,9 @@ def _levels(rng, K, r, reps, quick):
     if K == 1: return [0.0, 1.0]
     if r == 0 and K == 3: return [0.0, 0.25, 0.75, 1.0]             # the witness levels of the fixed defect
     if r == reps - 1 and K in (3, 4, 8): return np.linspace(0, 1, K + 1).tolist()
-    if r == 1 and K == 2: return util.uneven_boundaries(rng, K).tolist()       # non-dyadic thickness ratios
-    if quick or r % 2 == 0: return _dyadic_boundaries(rng, K).tolist()
-    return util.uneven_boundaries(rng, K, 4).tolist()
+    if r == 1 and K <= (2 if quick else 3):                          # non-dyadic thickness ratios (costly exact arithmetic)
+        return util.uneven_boundaries(rng, K, 6 if quick else 4).tolist()
+    return _dyadic_boundaries(rng, K).tolist()
 
 
 # ---------------------------------------------------------------------------
@@ -67,7 +67,7 @@ def generate(ctx):
     rng = ctx.rng
     quick = ctx.tier == 'quick'
     Ks = [1, 2, 3, 5] if quick else [1, 2, 3, 4, 5, 7, 8]
-    reps = 2 if quick else 4
+    reps = 2 if quick else 3
     for K in Ks:
         for r in range(reps):
             b = _levels(rng, K, r, reps, quick)
@@ -94,11 +94,18 @@ def generate(ctx):
                 yield 'matrix', dict(cfg, eta=eta)
                 for off in range(0, n, 7):
                     yield 'solve', dict(cfg, eta=eta, state={'kind': 'onehot', 'offset': off, 'amp': [1.0, -2.5, 0.125][off % 3]},
-                                        ncols=(6 if quick else 12), cseed=int(rng.integers(0, 2 ** 31)))
+                                        ncols=(6 if quick else 8), cseed=int(rng.integers(0, 2 ** 31)))
                 yield 'solve', dict(cfg, eta=eta, state={'kind': 'random', 'seed': int(rng.integers(0, 2 ** 31))},
-                                    ncols=(6 if quick else 12), cseed=int(rng.integers(0, 2 ** 31)))
+                                    ncols=(6 if quick else 8), cseed=int(rng.integers(0, 2 ** 31)))
             eta = ETAS[int(rng.integers(0, 6))]
             yield 'wrappers', dict(cfg, eta=eta, seed=int(rng.integers(0, 2 ** 31)), ncols=(4 if quick else 10))
+    # the two vertical operators alone, on more layer counts
+    for K in ([4, 8] if quick else [4, 6, 8, 12, 16]):
+        b = _dyadic_boundaries(rng, K, 7).tolist()
+        tref = (rng.integers(200 * 4, 300 * 4, size=K).astype(float) / 4).tolist()
+        ctx.count(f'weights-only K={K}')
+        yield 'weights', {'b': b, 'tref': tref, 'R': 287.0, 'kappa': [2.0 / 7, 0.25][K % 2], 'radius': 1.0,
+                          'dseed': int(rng.integers(0, 2 ** 31))}
     # shallow water
     for layers in ([1, 2, 3] if quick else [1, 2, 3, 5, 8]):
         for r in range(2 if quick else 4):
@@ -422,7 +429,8 @@ def r_shallow(ctx, a):
     itd, itp = np.asarray(invtr.divergence), np.asarray(invtr.potential)
     amax = float(max(np.abs(d).max(), np.abs(ph).max()))
     sc_t = float(max(np.abs(lam).max(), np.abs(phi).max()) * amax) + 1e-300
-    sc_i = float((1 + abs(eta) * max(np.abs(lam).max(), np.abs(phi).max())) ** 2 * amax)
+    ymax = float(max(np.abs(yd).max(), np.abs(yp).max(), np.abs(ytd).max(), np.abs(ytp).max()))
+    sc_i = float((1 + abs(eta) * max(np.abs(lam).max(), np.abs(phi).max())) * ymax)      # 1/schur <= 1
     cols = [(k, mm, l) for k in range(layers) for mm in (0, 1) for l in (0, L_ - 1)]
     for _ in range(a['ncols']):
         cols.append((int(rng.integers(0, layers)), int(rng.integers(0, M_)), int(rng.integers(0, L_))))
